@@ -2,12 +2,13 @@
 (* Enumeration of ALU table shapes for replay into the real AIR: op-kind      *)
 (* sequences (with Horner chains sharing or not sharing their alpha), every   *)
 (* field / extension degree / lane count / packing factor of the cfg, and    *)
-(* every single-cell mutation (or none).                                      *)
+(* every single-cell mutation (or none), on the lowest / second / highest     *)
+(* limb, and limb pairs deviating by +delta / -delta.                         *)
 EXTENDS Integers, Sequences, FiniteSets, TLC, Json
 
 CONSTANTS MaxOps, Configs   \* Configs: set of <<field, d, lanes, k>>
 KindsR == {"Add", "Mul", "BoolCheck", "MulAdd", "HornerAcc"}
-Cells == {"a", "b", "c", "out", "sep_out"}
+Cells == {"a", "b", "c", "out", "sep_out", "a_out", "b_out", "c_out"}
 
 VARIABLES ops, same, done
 vars == <<ops, same, done>>
@@ -25,14 +26,27 @@ Next == AddOp \/ Finish
 Spec == Init /\ [][Next]_vars
 
 ChainStart(i) == ops[i] = "HornerAcc" /\ (i = 1 \/ ops[i - 1] # "HornerAcc")
-Mutations ==
-    {[op |-> 0, cell |-> "none", coeff |-> 0]} \cup
-    { [op |-> i - 1, cell |-> c, coeff |-> 0] : i \in 1..Len(ops), c \in {"a", "b", "c", "out"} } \cup
-    { [op |-> i - 1, cell |-> "sep_out", coeff |-> 0] : i \in { j \in 1..Len(ops) : ChainStart(j) } }
+\* which coefficient (limb) of an extension value deviates: the lowest, the second and the highest; and PAIRS of limbs
+\* deviating by +delta / -delta (the sum of the limbs is kept: a constraint that aggregates limbs must still reject)
+Limbs(d) == {0, 1, d - 1} \cap (0..(d - 1))
+Pairs(d) == (IF d >= 2 THEN {<<0, d - 1>>} ELSE {}) \cup (IF d >= 3 THEN {<<1, 2>>} ELSE {})
+Mut(i, c, j, j2) == [op |-> i, cell |-> c, coeff |-> j, coeff2 |-> j2]
+Mutations(d) ==
+    {Mut(0, "none", 0, -1)} \cup
+    { Mut(i - 1, c, 0, -1) : i \in 1..Len(ops), c \in {"a", "b", "c", "out"} } \cup
+    { Mut(i - 1, "sep_out", 0, -1) : i \in { j \in 1..Len(ops) : ChainStart(j) } } \cup
+    (IF Len(ops) > 3 THEN {} ELSE
+       { Mut(i - 1, c, j, -1) : i \in 1..Len(ops), c \in {"a", "b", "c", "out"}, j \in Limbs(d) \ {0} } \cup
+       { Mut(i - 1, "sep_out", j, -1) : i \in { x \in 1..Len(ops) : ChainStart(x) }, j \in Limbs(d) \ {0} } \cup
+       { Mut(i - 1, c, pr[1], pr[2]) : i \in 1..Len(ops), c \in {"a", "b", "c", "out"}, pr \in Pairs(d) } \cup
+       \* an operand and the result of one row deviate TOGETHER (stays inside the relation for Add / MulAdd.c, leaves it elsewhere:
+       \* a BoolCheck row whose operand is no bit while out = a still holds)
+       { Mut(i - 1, c, j, -1) : i \in 1..Len(ops), c \in {"a_out", "b_out", "c_out"}, j \in Limbs(d) } \cup
+       { Mut(i - 1, c, pr[1], pr[2]) : i \in 1..Len(ops), c \in {"a_out", "b_out", "c_out"}, pr \in Pairs(d) })
 
 Case(cfg, m) ==
     [spec |-> "Tables", field |-> cfg[1], d |-> cfg[2], lanes |-> cfg[3], k |-> cfg[4],
      ops |-> ops, horner_b_same |-> same, mutate |-> m]
 
-Emit == done => \A cfg \in Configs : \A m \in Mutations : PrintT(<<"REPLAY", ToJson(Case(cfg, m))>>)
+Emit == done => \A cfg \in Configs : \A m \in Mutations(cfg[2]) : PrintT(<<"REPLAY", ToJson(Case(cfg, m))>>)
 =============================================================================
